@@ -1478,8 +1478,19 @@ func (t *hashTopo) lowerBound(v ssa.Value, depth int) int64 {
 			}
 		}
 		return lo
+	case *ssa.Field:
+		// a field of the hasher value: whatever any store of the module puts there, or the zero value (the type's zero value is
+		// usable: nothing forces callers through a constructor)
+		return t.fieldLowerBound(fieldKey(x), depth)
 	case *ssa.UnOp:
 		if x.Op == token.MUL {
+			if fa, ok := x.X.(*ssa.FieldAddr); ok {
+				if _, isAlloc := fa.X.(*ssa.Alloc); !isAlloc || true {
+					if k := fieldKey(fa); strings.HasPrefix(k, "hash.") {
+						return t.fieldLowerBound(k, depth)
+					}
+				}
+			}
 			if a, ok := x.X.(*ssa.Alloc); ok {
 				lo := int64(1 << 40)
 				n := 0
@@ -1500,6 +1511,20 @@ func (t *hashTopo) lowerBound(v ssa.Value, depth int) int64 {
 		return t.lowerBound(x.X, depth+1)
 	}
 	return unknownLow
+}
+
+// fieldLowerBound: the least value an integer field of a hash-package struct can hold: 0 (zero value) or what a store gives it.
+func (t *hashTopo) fieldLowerBound(key string, depth int) int64 {
+	if depth > 6 {
+		return unknownLow
+	}
+	lo := int64(0)
+	for _, st := range t.c.fieldStores()[key] {
+		if b := t.lowerBound(st.Val, depth+1); b < lo {
+			lo = b
+		}
+	}
+	return lo
 }
 
 func ruleHS4(id string) func(c *Ctx) *rule {
